@@ -367,6 +367,14 @@ def concatenate(arrs, axis=0):
             raise _np.exceptions.AxisError(axis, arrs.ndim - 1)
         raise Unsupported("np.concatenate of the rows of a symbolic array")
     arrs = [a.data if (hasattr(a, "data") and isinstance(a.data, SArr)) else a for a in list(arrs)]
+    if arrs and _b.all(isinstance(a, SRec) for a in arrs):
+        names = list(arrs[0].fields)
+        if _b.any(list(a.fields) != names for a in arrs):
+            raise TypeError("invalid type promotion with structured datatype(s).")
+        cols = {n: concatenate([a.fields[n] for a in arrs]) for n in names}
+        for n in names:
+            cols[n].dtype_name = arrs[0].fields[n].dtype_name
+        return SRec(cols[names[0]].shape[0], cols)
     arrs = [_arr(a) for a in arrs]
     if not arrs:
         raise ValueError("need at least one array to concatenate")
@@ -829,9 +837,28 @@ def argmin(a, **k):
 
 
 def argsort(a, **k):
+    """ASSUMED (1-d): a permutation of [0, n) that orders the values non-decreasingly"""
     if not _sym(a):
         return _np.argsort(a, **k)
-    raise Unsupported("np.argsort on symbolic data (covered by the groupby contract)")
+    a = _arr(a)
+    if a.ndim != 1:
+        raise Unsupported("np.argsort of rank != 1")
+    ctx = Ctx.cur
+    n = dim_term(a.shape[0])
+    I = z3.IntSort()
+    sg, inv = ctx.fresh_fn("argsort", I, I), ctx.fresh_fn("argsort_inv", I, I)
+    t, u = bv("t"), bv("u")
+    ae = a._elem
+    ctx.assume(forall([t], z3.Implies(z3.And(t >= 0, t < n), z3.And(sg(t) >= 0, sg(t) < n, inv(sg(t)) == t)), patterns=[sg(t)]), "numpy:argsort")
+    ctx.assume(forall([t], z3.Implies(z3.And(t >= 0, t < n), z3.And(inv(t) >= 0, inv(t) < n, sg(inv(t)) == t)), patterns=[inv(t)]), "numpy:argsort")
+    ctx.assume(forall([t, u], z3.Implies(z3.And(t >= 0, t <= u, u < n), ae(sg(t)) <= ae(sg(u))),
+                      patterns=[z3.MultiPattern(sg(t), sg(u))]), "numpy:argsort")
+    ctx.trust("numpy:argsort (a permutation that sorts)")
+    r = SArr((a.shape[0],), lambda q: sg(q), "i")
+    r.meta["values_in"] = (0, a.shape[0])
+    r.meta["perm"] = (sg, inv, a)
+    ctx.ghost["last_argsort"] = (sg, inv, a)
+    return r
 
 
 def _fs_active():
@@ -862,16 +889,70 @@ def sort(a, **k):
     raise Unsupported("np.sort on symbolic data")
 
 
-def unique(a, **k):
+def unique(a, return_index=False, **k):
+    """ASSUMED for a *sorted* 1-d array (side condition checked): the strictly increasing distinct values, and with
+    return_index the start of each run; seg(p) is the run that position p lies in."""
     if not _sym(a):
-        return _np.unique(a, **k)
-    raise Unsupported("np.unique on symbolic data")
+        return _np.unique(a, return_index=return_index, **k)
+    if k:
+        raise Unsupported(f"np.unique({list(k)})")
+    a = _arr(a)
+    if a.ndim != 1:
+        raise Unsupported("np.unique of rank != 1")
+    ctx = Ctx.cur
+    n = dim_term(a.shape[0])
+    ae = a._elem
+    t, u = bv("t"), bv("u")
+    ob = ctx.check(f"{ctx.unit_name}/pre@np.unique:sorted_input", SBool(forall([t, u], z3.Implies(z3.And(t >= 0, t <= u, u < n), ae(t) <= ae(u)))),
+                   kind="precondition of an assumed contract")
+    if ob is not None and ob.status != "discharged":
+        ctx.results.remove(ob)      # not a violation of anything: the contract simply does not cover unsorted input
+        raise Unsupported("np.unique on symbolic data that is not known to be sorted")
+    I = z3.IntSort()
+    m = ctx.fresh_int("n_unique", lo=0, size=True)
+    val = ctx.fresh_fn("unique_val", I, a._elem(z3.IntVal(0)).sort())
+    start, seg = ctx.fresh_fn("unique_start", I, I), ctx.fresh_fn("unique_run", I, I)
+    g, h = bv("g"), bv("h")
+    ctx.assume(z3.And(m.t <= n, (m.t == 0) == (n == 0)), "numpy:unique")
+    ctx.assume(z3.Implies(m.t > 0, start(0) == 0), "numpy:unique")
+    ctx.assume(start(m.t) == n, "numpy:unique (ghost: end of the last run)")
+    ctx.assume(forall([g], z3.Implies(z3.And(g >= 0, g < m.t), z3.And(start(g) >= 0, start(g) < start(g + 1), start(g + 1) <= n, seg(start(g)) == g,
+                                                                      ae(start(g)) == val(g))), patterns=[start(g)]), "numpy:unique")
+    ctx.assume(forall([g, h], z3.Implies(z3.And(g >= 0, g < h, h < m.t), val(g) < val(h)), patterns=[z3.MultiPattern(val(g), val(h))]), "numpy:unique")
+    ctx.assume(forall([t], z3.Implies(z3.And(t >= 0, t < n), z3.And(seg(t) >= 0, seg(t) < m.t, start(seg(t)) <= t, t < start(seg(t) + 1),
+                                                                    ae(t) == val(seg(t)))), patterns=[seg(t)]), "numpy:unique")
+    ctx.trust("numpy:unique of a sorted array (distinct values increasing, first index of each run)")
+    uq = SArr((m,), lambda q: val(q), a.kind, dtype_name=a.dtype_name)
+    uq.meta["unique"] = (m, val, start, seg)
+    ctx.ghost["last_unique"] = (m, val, start, seg)
+    if not return_index:
+        return uq
+    ix = SArr((m,), lambda q: start(q), "i")
+    ix.meta["unique"] = (m, val, start, seg)
+    ix.meta["values_in"] = (0, a.shape[0])
+    return uq, ix
 
 
 def split(a, idx, **k):
+    """ASSUMED: np.split(a, [i0, i1, ..]) = [a[:i0], a[i0:i1], .., a[i_last:]] (len(idx) + 1 pieces)"""
     if not anysym(a, idx):
         return _np.split(a, idx, **k)
-    raise Unsupported("np.split on symbolic data")
+    if k:
+        raise Unsupported("np.split with axis")
+    from .builtins_shim import SSeq
+    ix = _arr(idx)
+    if ix.ndim != 1 or ix.kind != "i":
+        raise Unsupported("np.split with a section count on symbolic data")
+    nparts = ix.shape[0] + 1
+    ie, np_t = ix._elem, dim_term(ix.shape[0])
+    Ctx.cur.trust("numpy:split at an index list (consecutive slices)")
+
+    def piece(g):
+        gt = z3.simplify(to_term(g))
+        lo = z3.simplify(z3.If(gt == 0, z3.IntVal(0), ie(gt - 1)))
+        hi = z3.simplify(z3.If(gt == np_t, dim_term(a.shape[0]) if not isinstance(a, SRec) else dim_term(a.n), ie(gt)))
+        return a[SNum(lo):SNum(hi)]
+    return SSeq(nparts if isinstance(nparts, int) else SNum(z3.simplify(to_term(nparts))), piece)
 
 
 def array_split(a, n, **k):
